@@ -15,7 +15,7 @@ def corpus_items(tier, seed, bool_only=False, uncompute_opts=(True, False)):
     unit = corpus.u_unit(widths=(2, 3, 4) if tier == "thorough" else (2, 3))
     ctl = corpus.u_ctl()
     orand = corpus.u_bool_or_of_ands()
-    repo = [p for p in corpus.u_repo() if corpus.size_ok(p[1], max_bits=16, max_nodes=60)]
+    repo = [p for p in corpus.u_repo_frozen() if corpus.size_ok(p[1], max_bits=16, max_nodes=60)]
     if bool_only:
         isb = lambda s: "-> bool:" in s
         unit = [p for p in unit if isb(p[1])]
